@@ -27,8 +27,9 @@ type sqStep struct {
 	TTL  int64  `json:"ttl,omitempty"`
 	Dt   int64  `json:"dt,omitempty"`
 	// adv relative to a deadline: Rel selects the key whose current deadline is the anchor
-	Anchor string `json:"anchor,omitempty"` // "" | deadline | tickboundary
-	Off    int64  `json:"off,omitempty"`
+	ZeroCost bool   `json:"zero_cost,omitempty"` // pass cost 0 (Set) / return Cost 0 (loader): the cost function supplies Cost
+	Anchor   string `json:"anchor,omitempty"`    // "" | deadline | tickboundary
+	Off      int64  `json:"off,omitempty"`
 }
 
 type sqCase struct {
@@ -36,6 +37,7 @@ type sqCase struct {
 	Doorkeeper bool     `json:"doorkeeper,omitempty"`
 	Loading    bool     `json:"loading,omitempty"`
 	NoPressure bool     `json:"no_pressure,omitempty"` // C06 mode A: the executor skips writes that would push live cost over MaxSize
+	CostFn     bool     `json:"cost_fn,omitempty"`     // the store is built with a cost function; writes flagged ZeroCost pass cost 0 and let it decide
 	Keys       int      `json:"keys"`
 	Steps      []sqStep `json:"steps"`
 }
@@ -76,6 +78,10 @@ type sqRun struct {
 	model map[int]*sqModel
 	// classes
 	cls map[string]bool
+	// cost function support
+	costMu   sync.Mutex
+	costOf   map[int]int64
+	nextZero bool
 }
 
 type sqModel struct {
@@ -262,7 +268,7 @@ func (r *sqRun) close() {
 }
 
 func execSeq(c sqCase, x *verifkit.Ctx, c03, c06 bool) (fail *verifkit.Failure) {
-	r := &sqRun{c: c, x: x, writes: map[int]*sqWrite{}, model: map[int]*sqModel{}, cls: map[string]bool{}}
+	r := &sqRun{c: c, x: x, writes: map[int]*sqWrite{}, model: map[int]*sqModel{}, cls: map[string]bool{}, costOf: map[int]int64{}}
 	defer func() {
 		if rec := recover(); rec != nil {
 			buf := make([]byte, 1<<13)
@@ -274,7 +280,19 @@ func execSeq(c sqCase, x *verifkit.Ctx, c03, c06 bool) (fail *verifkit.Failure) 
 	if VerifNoMaintenance.Load() {
 		panic("sequential harness needs the real maintenance goroutines")
 	}
-	r.s = NewStore[int, int](&StoreOptions[int, int]{MaxSize: int64(c.MaxSize), Doorkeeper: c.Doorkeeper, Listener: r.listener})
+	opts := &StoreOptions[int, int]{MaxSize: int64(c.MaxSize), Doorkeeper: c.Doorkeeper, Listener: r.listener}
+	if c.CostFn {
+		// the cost of a value is what the case says for the write that produced it
+		opts.Cost = func(v int) int64 {
+			r.costMu.Lock()
+			defer r.costMu.Unlock()
+			if cst, ok := r.costOf[v]; ok {
+				return cst
+			}
+			return 1
+		}
+	}
+	r.s = NewStore[int, int](opts)
 	defer r.close()
 	r.s.mask = 0
 	if c.Loading {
@@ -289,7 +307,14 @@ func execSeq(c sqCase, x *verifkit.Ctx, c03, c06 bool) (fail *verifkit.Failure) 
 				w.deadline = satAdd(at, w.ttl)
 			}
 			r.writes[v] = w
-			return Loaded[int]{Value: v, Cost: r.nextCost, TTL: time.Duration(r.nextTTL)}, nil
+			lc := r.nextCost
+			if r.nextZero {
+				r.costMu.Lock()
+				r.costOf[v] = r.nextCost
+				r.costMu.Unlock()
+				lc = 0
+			}
+			return Loaded[int]{Value: v, Cost: lc, TTL: time.Duration(r.nextTTL)}, nil
 		})
 	}
 	r.park()
@@ -344,7 +369,15 @@ func execSeq(c sqCase, x *verifkit.Ctx, c03, c06 bool) (fail *verifkit.Failure) 
 				w.deadline = satAdd(at, st.TTL)
 			}
 			r.writes[v] = w
-			ok := r.s.Set(st.K, v, cost, time.Duration(st.TTL))
+			passCost := cost
+			if c.CostFn && st.ZeroCost {
+				r.costMu.Lock()
+				r.costOf[v] = cost
+				r.costMu.Unlock()
+				passCost = 0
+				r.cls["cost-from-cost-function"] = true
+			}
+			ok := r.s.Set(st.K, v, passCost, time.Duration(st.TTL))
 			if !c06 {
 				break
 			}
@@ -416,6 +449,13 @@ func execSeq(c sqCase, x *verifkit.Ctx, c03, c06 bool) (fail *verifkit.Failure) 
 			}
 			syncReports()
 			r.nextCost, r.nextTTL = st.Cost, st.TTL
+			if r.nextCost < 1 {
+				r.nextCost = 1
+			}
+			r.nextZero = c.CostFn && st.ZeroCost
+			if r.nextZero {
+				r.cls["cost-from-cost-function"] = true
+			}
 			if c06 && c.NoPressure && st.Cost <= int64(c.MaxSize) {
 				cc := st.Cost
 				if cc < 1 {
@@ -596,7 +636,7 @@ func execSeq(c sqCase, x *verifkit.Ctx, c03, c06 bool) (fail *verifkit.Failure) 
 	if c03 && (r.cls["read-in-last-30s-or-after"] || r.cls["read-during-stall"]) {
 		x.NonTrivial()
 	}
-	if c06 && (r.cls["write-after-expiry"] || r.cls["ttl-and-non-ttl-writes-on-one-key"] || r.cls["oversized-loader-cost"] || r.cls["oversized-set"]) {
+	if c06 && (r.cls["write-after-expiry"] || r.cls["ttl-and-non-ttl-writes-on-one-key"] || r.cls["oversized-loader-cost"] || r.cls["oversized-set"] || r.cls["cost-from-cost-function"]) {
 		x.NonTrivial()
 	}
 	return nil
@@ -719,6 +759,7 @@ func genC06(t *rapid.T) sqCase {
 	c.Loading = rapid.Bool().Draw(t, "loading")
 	c.Doorkeeper = rapid.IntRange(0, 3).Draw(t, "dk") == 0
 	c.NoPressure = rapid.IntRange(0, 2).Draw(t, "mode") != 0
+	c.CostFn = rapid.IntRange(0, 2).Draw(t, "costFn") == 0
 	c.Keys = rapid.IntRange(1, 6).Draw(t, "keys")
 	cost := func(t *rapid.T) int64 {
 		switch rapid.IntRange(0, 9).Draw(t, "costClass") {
@@ -744,11 +785,11 @@ func genC06(t *rapid.T) sqCase {
 		k := rapid.IntRange(0, c.Keys-1).Draw(t, "k")
 		switch op := rapid.IntRange(0, 29).Draw(t, "op"); {
 		case op < 9:
-			return sqStep{Op: "set", K: k, Cost: cost(t), TTL: ttl(t)}
+			return sqStep{Op: "set", K: k, Cost: cost(t), TTL: ttl(t), ZeroCost: c.CostFn && rapid.Bool().Draw(t, "zero")}
 		case op < 14:
 			return sqStep{Op: "get", K: k}
 		case op < 17:
-			return sqStep{Op: "lget", K: k, Cost: cost(t), TTL: ttl(t)}
+			return sqStep{Op: "lget", K: k, Cost: cost(t), TTL: ttl(t), ZeroCost: c.CostFn && rapid.Bool().Draw(t, "zero")}
 		case op < 19:
 			return sqStep{Op: "del", K: k}
 		case op < 24:
@@ -789,7 +830,7 @@ func TestVerifC06Seq(t *testing.T) {
 	verifkit.Run(t, verifkit.Spec[sqCase]{
 		ID: "C06", Gen: genC06,
 		Exec:        func(c sqCase, x *verifkit.Ctx) *verifkit.Failure { return execSeq(c, x, false, true) },
-		Rule:        "C06: rapid draws MaxSize in {1,2,5,10,50}, doorkeeper, loading, a no-pressure/pressure mode and up to 40 steps of Set/SetWithTTL (cost classes 1, MaxSize, MaxSize+1, 5*MaxSize, 1..MaxSize) / Get / loading Get with scripted loader cost+TTL / Delete / advance / forced tick / Wait; non-trivial = a key was written after its earlier value expired, or TTL and non-TTL writes were mixed on one key, or an oversized cost went through Set or the loader",
+		Rule:        "C06: rapid draws MaxSize in {1,2,5,10,50}, doorkeeper, loading, a no-pressure/pressure mode and up to 40 steps of Set/SetWithTTL (cost classes 1, MaxSize, MaxSize+1, 5*MaxSize, 1..MaxSize; in a third of the cases the store has a cost function and half of the writes/loads pass cost 0 so that it supplies the cost) / Get / loading Get with scripted loader cost+TTL / Delete / advance / forced tick / Wait; non-trivial = a key was written after its earlier value expired, or TTL and non-TTL writes were mixed on one key, or an oversized cost went through Set or the loader",
 		Assumptions: append([]string{"no-pressure mode: the executor skips a write that would push the cost of all entries not yet reported EXPIRED/EVICTED above MaxSize (conservative reading of 'live keys')"}, sqAssumptions...),
 	})
 }
